@@ -183,31 +183,51 @@ def count_part(ctx, fails):
 
 
 def reject_part(ctx, fails):
+    import itertools
+    import warnings
     import zepid.calc as zc
+
+    def must_reject(f, args, key):
+        try:
+            with warnings.catch_warnings():
+                warnings.simplefilter('ignore')
+                getattr(zc, f)(*args)
+            fails.append((0, 'calc.%s.accepts-nonpositive' % f, '%s accepted %r (a non-positive cell)' % (f, list(args)), {key: list(args)}))
+        except ValueError:
+            pass
+        except Exception as e:   # noqa  -- failing later for another reason is not a rejection of the input
+            fails.append((0, 'calc.%s.accepts-nonpositive' % f, '%s(%r): the non-positive cell was not rejected (it fell through to %s)'
+                          % (f, list(args), type(e).__name__), {key: list(args)}))
     n = 40 if ctx.quick else 400
+    four = F4 + ['attributable_community_risk', 'population_attributable_fraction']
     for _ in range(n):
         t = [ctx.rng.randint(1, 30) for _ in range(4)]
         pos = ctx.rng.randrange(4)
         t[pos] = ctx.rng.choice([0, -1, -7, 0.0, -0.5])
         ctx.evaluations += 1
         ctx.count('reject:cell')
-        for f in F4 + ['attributable_community_risk', 'population_attributable_fraction']:
-            try:
-                getattr(zc, f)(*t)
-                fails.append((0, 'calc.%s.accepts-nonpositive' % f, '%s accepted the table %r with a non-positive cell' % (f, t), {'table': t}))
-            except ValueError:
-                pass
+        for f in four:
+            must_reject(f, t, 'table')
         a, c = ctx.rng.randint(1, 30), ctx.rng.randint(1, 30)
         t1, t2 = ctx.rng.uniform(1, 100), ctx.rng.uniform(1, 100)
         args = [a, c, t1, t2]
         pos = ctx.rng.randrange(4)
         args[pos] = ctx.rng.choice([0, -1]) if pos < 2 else -abs(args[pos])
         for f in ('incidence_rate_ratio', 'incidence_rate_difference'):
-            try:
-                getattr(zc, f)(*args)
-                fails.append((0, 'calc.%s.accepts-nonpositive' % f, '%s accepted %r' % (f, args), {'args': args}))
-            except ValueError:
-                pass
+            must_reject(f, args, 'args')
+    # every position of the bad cell x every arrangement of small (sparse-table) and large valid cells around it
+    for pos in range(4):
+        for bad in (0, -2):
+            for others in itertools.product((3, 12), repeat=3):
+                t = list(others)
+                t.insert(pos, bad)
+                ctx.evaluations += 1
+                ctx.count('reject:systematic')
+                for f in four:
+                    must_reject(f, t, 'table')
+                if pos < 2:
+                    for f in ('incidence_rate_ratio', 'incidence_rate_difference'):
+                        must_reject(f, [t[0], t[1], 40.5, 77.25], 'args')
 
 
 def rate_part(ctx, fails):
@@ -281,6 +301,8 @@ def frame_df(fr):
     df = pd.DataFrame({'e': e, 'y': [np.nan if r[1] is None else float(r[1]) for r in fr['rows']],
                        't': [np.nan if r[2] is None else r[2] for r in fr['rows']]})
     n = len(df)
+    # a bystander column the analysis does not name, with missing values of its own
+    df['cd4'] = [np.nan if (i * 7 + n) % 3 == 0 else 100.0 + i for i in range(n)]
     if fr['index'] == 'shift':
         df.index = range(50, 50 + n)
     elif fr['index'] == 'str':
